@@ -11,12 +11,18 @@
 //! Op grammar (prefix notation, `,`-separated tokens, strings as hex, `-` = empty):
 //!   case <name>
 //!   routes <base> <top>        base: `~` = none | hex ; top := (T<k>|V<k>),<route>*k
-//!        route := (R<k>|V<k>),<seg>,<route>*k   R: children as a tuple (k<=4), V: as StaticVec, k=0: leaf
+//!        route := (R<k>|V<k>)[<mode>],<seg>,<route>*k   R: children as a tuple (k<=4), V: as StaticVec, k=0: leaf
+//!        mode  := p | i | a | s | g   `.ssr_mode(..)` on the route before `.child(..)`: PartiallyBlocked, InOrder, Async,
+//!                 Static(StaticRoute with prerender_params), Static(.. plus a regenerate fn); absent = OutOfOrder (the default)
 //!        seg   := s<hex> | p<name> | o<name> | w<name> | t<n>,<seg>*n      (n <= 6)
 //!     -> flat <routes> exp <expanded routes> ## verdict      (real generate_routes / expand_optionals)
+//!        every flat route carries `@<mode>~<regen>~<methods>`: mode o|p|i|a|s<id> (id = preorder index of the route
+//!        whose StaticRoute it is, read back through the real `to_prerendered_params`), regen = ids of the
+//!        regeneration fns in order (`-` = none; each fn is called and reports its id), methods = sorted initials
 //!   match <path>   -> none | panic | m <pos>:<matched>/<pos>:<matched>... <params> ## verdict
 //!   seg <seg> <path> -> none | panic | some <matched> <remaining> <params> ## verdict   (PossibleRouteMatch::test)
-//!   build <i> <vals> -> <path> <match result> ## verdict   (StaticPath::into_paths on expanded flat route i, then match_route)
+//!   build <i> <vals> -> <path> <match result> ## verdict   (StaticPath::into_paths on expanded flat route i, then match_route;
+//!        when the generated route is Static and optional-free: RouteListing::new(..).into_static_paths() with its own StaticRoute)
 //! <params> = `-` or name=hex,name=hex (in the router's order); <routes> = r|r.. ; r = `_` or seg.seg..
 //!
 //! Implementation-side oracle (independent of the Lean model): a from-scratch segment-wise matcher over
@@ -28,10 +34,11 @@ use hx_common::*;
 use leptos_router::{
     any_nested_match::AnyNestedMatch,
     any_nested_route::{AnyNestedRoute, IntoAnyNestedRoute},
-    static_routes::{StaticParamsMap, StaticPath},
-    ExpandOptionals, MatchInterface, MatchNestedRoutes, MatchParams, NestedRoute,
+    params::ParamsMap,
+    static_routes::{RegenerationFn, StaticParamsMap, StaticPath, StaticRoute},
+    ExpandOptionals, GeneratedRouteData, MatchInterface, MatchNestedRoutes, MatchParams, Method, NestedRoute,
     OptionalParamSegment, ParamSegment, PartialPathMatch, PathSegment, PossibleRouteMatch, RouteDefs,
-    RouteMatchId, StaticSegment, WildcardSegment,
+    RouteListing, RouteMatchId, SsrMode, StaticSegment, WildcardSegment,
 };
 use std::cell::RefCell;
 use std::collections::HashMap;
@@ -55,6 +62,8 @@ enum SegT {
 struct RouteT {
     segs: SegT,
     vec_kind: bool,
+    /// 'o' (default) | 'p' | 'i' | 'a' | 's' | 'g'
+    mode: char,
     children: Vec<RouteT>,
 }
 
@@ -100,8 +109,14 @@ fn parse_route<'a>(t: &mut std::slice::Iter<'a, &'a str>) -> Option<RouteT> {
         "V" => true,
         _ => return None,
     };
-    let n: usize = rest.parse().ok()?;
-    if rest.len() != 1 || (!vec_kind && n > 4) || n > 8 {
+    let mut rc = rest.chars();
+    let n = rc.next()?.to_digit(10)? as usize;
+    let mode = match rc.next() {
+        None => 'o',
+        Some(c @ ('p' | 'i' | 'a' | 's' | 'g')) => c,
+        Some(_) => return None,
+    };
+    if rc.next().is_some() || (!vec_kind && n > 4) || n > 8 {
         return None;
     }
     let segs = parse_seg(t)?;
@@ -109,7 +124,7 @@ fn parse_route<'a>(t: &mut std::slice::Iter<'a, &'a str>) -> Option<RouteT> {
     for _ in 0..n {
         children.push(parse_route(t)?);
     }
-    Some(RouteT { segs, vec_kind, children })
+    Some(RouteT { segs, vec_kind, mode, children })
 }
 
 fn parse_defs(base: &str, tree: &str) -> Option<DefsT> {
@@ -153,7 +168,8 @@ fn show_seg(s: &SegT, out: &mut Vec<String>) {
 }
 
 fn show_route(r: &RouteT, out: &mut Vec<String>) {
-    out.push(format!("{}{}", if r.vec_kind { "V" } else { "R" }, r.children.len()));
+    let m = if r.mode == 'o' { String::new() } else { r.mode.to_string() };
+    out.push(format!("{}{}{m}", if r.vec_kind { "V" } else { "R" }, r.children.len()));
     show_seg(&r.segs, out);
     for c in &r.children {
         show_route(c, out)
@@ -289,16 +305,62 @@ macro_rules! pack {
     }};
 }
 
-fn realise_route(r: &RouteT, my_pos: usize, next_id: &mut u16, pos: &mut HashMap<u16, usize>) -> AnyNestedRoute {
+thread_local! {
+    /// the values the prerender-params closures of the Static routes hand out (set by `build`)
+    static BUILD_VALS: RefCell<Vec<(String, Vec<String>)>> = const { RefCell::new(Vec::new()) };
+    /// ids reported by the regeneration fns when called
+    static REGEN_LOG: RefCell<Vec<usize>> = const { RefCell::new(Vec::new()) };
+}
+
+/// The real `SsrMode` for a mode letter; a Static route's `StaticRoute` is tagged with the route's
+/// preorder index so that its identity can be read back from the generated table.
+fn realise_mode(c: char, seq: usize) -> SsrMode {
+    match c {
+        'p' => SsrMode::PartiallyBlocked,
+        'i' => SsrMode::InOrder,
+        'a' => SsrMode::Async,
+        's' | 'g' => {
+            let mut sr = StaticRoute::new().prerender_params(move || async move {
+                let mut m = StaticParamsMap::new();
+                BUILD_VALS.with(|v| {
+                    for (k, x) in v.borrow().iter() {
+                        m.insert(k, x.clone());
+                    }
+                });
+                m.insert("__id", vec![seq.to_string()]);
+                m
+            });
+            if c == 'g' {
+                sr = sr.regenerate(move |_| {
+                    REGEN_LOG.with(|l| l.borrow_mut().push(seq));
+                    futures::stream::empty::<()>()
+                });
+            }
+            SsrMode::Static(sr)
+        }
+        _ => SsrMode::OutOfOrder,
+    }
+}
+
+fn realise_route(
+    r: &RouteT,
+    my_pos: usize,
+    next_id: &mut u16,
+    seq: &mut usize,
+    pos: &mut HashMap<u16, usize>,
+) -> AnyNestedRoute {
     // NestedRoute::new draws the id: parent before children => ids in preorder
     let me = NestedRoute::new(realise_seg(&r.segs), || ());
+    // the default is left untouched when no mode is given
+    let me = if r.mode == 'o' { me } else { me.ssr_mode(realise_mode(r.mode, *seq)) };
     pos.insert(*next_id, my_pos);
     *next_id = next_id.wrapping_add(1);
+    *seq += 1;
     if r.children.is_empty() {
         me.into_any_nested_route()
     } else {
         let kids: Vec<AnyNestedRoute> =
-            r.children.iter().enumerate().map(|(i, c)| realise_route(c, i, next_id, pos)).collect();
+            r.children.iter().enumerate().map(|(i, c)| realise_route(c, i, next_id, seq, pos)).collect();
         pack!(kids, r.vec_kind, |c: AnyNestedRoute| me.child(c).into_any_nested_route())
     }
 }
@@ -306,8 +368,9 @@ fn realise_route(r: &RouteT, my_pos: usize, next_id: &mut u16, pos: &mut HashMap
 fn realise(d: &DefsT) -> Realised {
     let mut pos = HashMap::new();
     let mut next_id = route_id(RouteMatchId::new_from_route_id()).wrapping_add(1);
+    let mut seq = 0usize;
     let tops: Vec<AnyNestedRoute> =
-        d.tops.iter().enumerate().map(|(i, r)| realise_route(r, i, &mut next_id, &mut pos)).collect();
+        d.tops.iter().enumerate().map(|(i, r)| realise_route(r, i, &mut next_id, &mut seq, &mut pos)).collect();
     let all: AnyNestedRoute = pack!(tops.clone(), d.vec_kind, |c: AnyNestedRoute| c);
     let defs = match &d.base {
         None => RouteDefs::new(all),
@@ -336,6 +399,143 @@ fn show_flat(rs: &[Vec<PathSegment>]) -> String {
         .map(|r| if r.is_empty() { "_".to_string() } else { r.iter().map(show_pseg).collect::<Vec<_>>().join(".") })
         .collect::<Vec<_>>()
         .join("|")
+}
+
+fn show_mode(m: &SsrMode) -> String {
+    match m {
+        SsrMode::OutOfOrder => "o".into(),
+        SsrMode::PartiallyBlocked => "p".into(),
+        SsrMode::InOrder => "i".into(),
+        SsrMode::Async => "a".into(),
+        SsrMode::Static(sr) => {
+            let id = futures::executor::block_on(sr.to_prerendered_params())
+                .and_then(|m| m.get("__id").and_then(|v| v.first().cloned()))
+                .unwrap_or_else(|| "?".into());
+            format!("s{id}")
+        }
+    }
+}
+
+fn show_regen(fns: &[RegenerationFn]) -> String {
+    REGEN_LOG.with(|l| l.borrow_mut().clear());
+    for f in fns {
+        let _ = f(&ParamsMap::new());
+    }
+    let ids: Vec<String> = REGEN_LOG.with(|l| l.borrow().iter().map(|i| i.to_string()).collect());
+    if ids.len() != fns.len() {
+        return "?".into();
+    }
+    if ids.is_empty() {
+        "-".into()
+    } else {
+        ids.join(".")
+    }
+}
+
+fn show_methods(ms: &std::collections::HashSet<Method>) -> String {
+    let mut v: Vec<&str> = ms
+        .iter()
+        .map(|m| match m {
+            Method::Get => "G",
+            Method::Post => "P",
+            Method::Put => "U",
+            Method::Delete => "D",
+            Method::Patch => "A",
+        })
+        .collect();
+    v.sort();
+    if v.is_empty() {
+        "-".into()
+    } else {
+        v.concat()
+    }
+}
+
+fn show_segs(r: &[PathSegment]) -> String {
+    if r.is_empty() {
+        "_".to_string()
+    } else {
+        r.iter().map(show_pseg).collect::<Vec<_>>().join(".")
+    }
+}
+
+fn show_gen(gs: &[GeneratedRouteData]) -> String {
+    if gs.is_empty() {
+        return "!".into();
+    }
+    gs.iter()
+        .map(|g| {
+            format!(
+                "{}@{}~{}~{}",
+                show_segs(&g.segments),
+                show_mode(&g.ssr_mode),
+                show_regen(&g.regenerate),
+                show_methods(&g.methods)
+            )
+        })
+        .collect::<Vec<_>>()
+        .join("|")
+}
+
+/// Independent expectation for the generated table, straight from the definition tree: every
+/// root-to-leaf chain is one entry; segments are concatenated, the mode is the first strictest one
+/// on the chain, the regeneration fns are those of the chain's `g` routes in order.
+fn expected_gen(d: &DefsT) -> String {
+    fn flat_seg(s: &SegT, out: &mut Vec<String>) {
+        match s {
+            SegT::St(t) => out.push(format!("s{}", hex(t.as_bytes()))),
+            SegT::Param(n) => out.push(format!("p{n}")),
+            SegT::Opt(n) => out.push(format!("o{n}")),
+            SegT::Splat(n) => out.push(format!("w{n}")),
+            SegT::Tup(l) => l.iter().for_each(|x| flat_seg(x, out)),
+        }
+    }
+    fn rank(c: char) -> usize {
+        match c {
+            'p' => 1,
+            'i' => 2,
+            'a' => 3,
+            's' | 'g' => 4,
+            _ => 0,
+        }
+    }
+    fn go(r: &RouteT, seq: &mut usize, chain: &mut Vec<(Vec<String>, char, usize)>, out: &mut Vec<String>) {
+        let mut segs = vec![];
+        flat_seg(&r.segs, &mut segs);
+        chain.push((segs, r.mode, *seq));
+        *seq += 1;
+        if r.children.is_empty() {
+            let all: Vec<String> = chain.iter().flat_map(|c| c.0.clone()).collect();
+            let mut best = (chain[0].1, chain[0].2);
+            for c in chain.iter() {
+                if rank(c.1) > rank(best.0) {
+                    best = (c.1, c.2)
+                }
+            }
+            let mode = if rank(best.0) == 4 { format!("s{}", best.1) } else { best.0.to_string() };
+            let regen: Vec<String> = chain.iter().filter(|c| c.1 == 'g').map(|c| c.2.to_string()).collect();
+            out.push(format!(
+                "{}@{mode}~{}~G",
+                if all.is_empty() { "_".into() } else { all.join(".") },
+                if regen.is_empty() { "-".into() } else { regen.join(".") }
+            ));
+        } else {
+            for c in &r.children {
+                go(c, seq, chain, out)
+            }
+        }
+        chain.pop();
+    }
+    let mut out = vec![];
+    let mut seq = 0;
+    for t in &d.tops {
+        go(t, &mut seq, &mut vec![], &mut out)
+    }
+    if out.is_empty() {
+        "!".into()
+    } else {
+        out.join("|")
+    }
 }
 
 fn show_params(p: &[(String, String)]) -> String {
@@ -549,9 +749,18 @@ fn judge(flat: &Flat, path: &str, got: &Outcome) -> String {
 
 // ------------------------------------------------------------------ ops
 
+/// the parts of a generated Static entry (base included), for `build` through the real `RouteListing`
+#[derive(Clone)]
+struct Origin {
+    segments: Vec<PathSegment>,
+    ssr_mode: SsrMode,
+    methods: std::collections::HashSet<Method>,
+    regenerate: Vec<RegenerationFn>,
+}
+
 #[derive(Default)]
 struct State {
-    cur: Option<(Realised, Flat, Vec<Vec<PathSegment>>)>,
+    cur: Option<(Realised, Flat, Vec<Vec<PathSegment>>, Vec<Option<Origin>>)>,
 }
 
 fn tags_of_name(name: &str) -> String {
@@ -572,7 +781,8 @@ fn op(st: &mut State, line: &str) -> String {
             let Some(d) = parse_defs(base, tree) else { return "bad-op".into() };
             let r = realise(&d);
             let (_, gen) = r.defs.generate_routes();
-            let flat_all: Vec<Vec<PathSegment>> = gen.into_iter().map(|g| g.segments).collect();
+            let gens: Vec<GeneratedRouteData> = gen.into_iter().collect();
+            let flat_all: Vec<Vec<PathSegment>> = gens.iter().map(|g| g.segments.clone()).collect();
             let expanded: Vec<Vec<PathSegment>> = flat_all.iter().flat_map(|f| f.expand_optionals()).collect();
             // oracle: 2^k expansions each, no optional left, pairwise distinct per route
             let mut ok = true;
@@ -586,14 +796,44 @@ fn op(st: &mut State, line: &str) -> String {
             let cat: Vec<Vec<PathSegment>> =
                 r.tops.iter().flat_map(|t| t.generate_routes().into_iter().map(|g| g.segments).collect::<Vec<_>>()).collect();
             ok &= cat == flat_all;
-            let out = format!("flat {} exp {} ## {}", show_flat(&flat_all), show_flat(&expanded), if ok { "ok" } else { "fail expand" });
+            let shown = show_gen(&gens);
+            // every chain of the definition tree is listed once, with the whole chain's segments,
+            // the strictest mode on the chain and the chain's regeneration fns
+            let table_ok = shown == expected_gen(&d);
+            let out = format!(
+                "flat {} exp {} ## {}",
+                shown,
+                show_flat(&expanded),
+                if !table_ok {
+                    "fail generate"
+                } else if ok {
+                    "ok"
+                } else {
+                    "fail expand"
+                }
+            );
             let flat = flat_of(&r);
             let exp_with_base: Vec<Vec<PathSegment>> = flat.per_def.iter().flatten().cloned().collect();
-            st.cur = Some((r, flat, exp_with_base));
+            // origin of every expanded route: its generated entry when that entry is Static and optional-free
+            let base_seg = r.defs.generate_routes().0.map(|b| PathSegment::Static(b.to_string().into()));
+            let origin: Vec<Option<Origin>> = gens
+                .iter()
+                .flat_map(|g| {
+                    let n = g.segments.expand_optionals().len();
+                    let o = (n == 1 && matches!(g.ssr_mode, SsrMode::Static(_))).then(|| Origin {
+                        segments: base_seg.iter().cloned().chain(g.segments.clone()).collect(),
+                        ssr_mode: g.ssr_mode.clone(),
+                        methods: g.methods.clone(),
+                        regenerate: g.regenerate.clone(),
+                    });
+                    std::iter::repeat_n(o, n)
+                })
+                .collect();
+            st.cur = Some((r, flat, exp_with_base, origin));
             out
         }
         ["match", p] => {
-            let (Some(path), Some((r, flat, _))) = (unhex_str(p), st.cur.as_ref()) else { return "bad-op".into() };
+            let (Some(path), Some((r, flat, _, _))) = (unhex_str(p), st.cur.as_ref()) else { return "bad-op".into() };
             let got = run_match(r, &path);
             format!("{} ## {}", show_outcome(&got), judge(flat, &path, &got))
         }
@@ -628,7 +868,7 @@ fn op(st: &mut State, line: &str) -> String {
             }
         }
         ["build", i, vals] => {
-            let Some((r, flat, exp)) = st.cur.as_ref() else { return "bad-op".into() };
+            let Some((r, flat, exp, origin)) = st.cur.as_ref() else { return "bad-op".into() };
             let Ok(i) = i.parse::<usize>() else { return "bad-op".into() };
             let vals: Option<Vec<String>> =
                 if *vals == "~" { Some(vec![]) } else { vals.split(',').map(unhex_str).collect() };
@@ -647,7 +887,24 @@ fn op(st: &mut State, line: &str) -> String {
             for (n, v) in names.iter().zip(&vals) {
                 map.insert(n, vec![v.clone()]);
             }
-            let built = catch_unwind(AssertUnwindSafe(|| StaticPath::new(route.clone()).into_paths(Some(map))));
+            let built = match origin.get(i).cloned().flatten() {
+                // a Static entry: the way the integrations build its paths, with its own StaticRoute
+                Some(g) if g.segments == *route => {
+                    BUILD_VALS.with(|v| *v.borrow_mut() = map.0.clone());
+                    let b = catch_unwind(AssertUnwindSafe(|| {
+                        let listing = RouteListing::new(g.segments, g.ssr_mode, g.methods, g.regenerate);
+                        futures::executor::block_on(listing.into_static_paths())
+                    }));
+                    BUILD_VALS.with(|v| v.borrow_mut().clear());
+                    match b {
+                        Ok(Some(b)) => Ok(b),
+                        Ok(None) => return "no-static ## fail build-static".into(),
+                        Err(e) => Err(e),
+                    }
+                }
+                Some(_) => return "origin ## fail build-origin".into(),
+                None => catch_unwind(AssertUnwindSafe(|| StaticPath::new(route.clone()).into_paths(Some(map)))),
+            };
             let Ok(built) = built else { return "panic-build ## fail panic".into() };
             let [built] = built.as_slice() else { return format!("built{} ## fail build-count", built.len()) };
             let path = built.as_ref().to_string();
@@ -777,6 +1034,15 @@ mod gen {
         nest(r, atoms, 0, flat_only)
     }
 
+    /// `.ssr_mode(..)` at every level: mostly the default, otherwise any of the other modes
+    fn gen_mode(r: &mut Rng) -> char {
+        if r.chance(1, 2) {
+            'o'
+        } else {
+            *r.pick(&['p', 'i', 'a', 's', 'g'])
+        }
+    }
+
     fn gen_route(r: &mut Rng, nm: &mut Names, depth: usize, top: bool) -> RouteT {
         let kids = if depth >= 3 {
             0
@@ -786,7 +1052,7 @@ mod gen {
         let segs = gen_segs(r, nm, kids == 0, top);
         let vec_kind = r.chance(1, 4);
         let children = (0..kids).map(|_| gen_route(r, nm, depth + 1, false)).collect();
-        RouteT { segs, vec_kind, children }
+        RouteT { segs, vec_kind, mode: gen_mode(r), children }
     }
 
     pub fn gen_defs(r: &mut Rng) -> DefsT {
@@ -810,7 +1076,7 @@ mod gen {
         SegT::St(s.into())
     }
     fn leaf(segs: SegT) -> RouteT {
-        RouteT { segs, vec_kind: false, children: vec![] }
+        RouteT { segs, vec_kind: false, mode: 'o', children: vec![] }
     }
     fn seg_choices() -> Vec<SegT> {
         vec![st("a"), st("ab"), st("é"), SegT::Param("p".into()), SegT::Opt("o".into()), SegT::Splat("w".into())]
@@ -862,7 +1128,7 @@ mod gen {
                     DefsT {
                         base: None,
                         vec_kind: false,
-                        tops: vec![RouteT { segs: p.clone(), vec_kind: false, children: vec![leaf(c.clone())] }],
+                        tops: vec![RouteT { segs: p.clone(), vec_kind: false, mode: 'o', children: vec![leaf(c.clone())] }],
                     },
                     "fam-nested",
                 ));
@@ -879,6 +1145,61 @@ mod gen {
         for b in ["/a", "/a/b", "", "/é"] {
             for s in [st("b"), st(""), st("/"), SegT::Param("p".into()), SegT::Opt("o".into())] {
                 out.push((DefsT { base: Some(b.into()), vec_kind: false, tops: vec![leaf(s)] }, "fam-base"));
+            }
+        }
+        out
+    }
+
+    /// `.ssr_mode(..)` at every level of a small tree, every combination: the generated table must list
+    /// every chain with its whole prefix whatever the modes are
+    pub fn mode_families() -> Vec<(DefsT, &'static str)> {
+        let mut out = vec![];
+        let with = |segs: SegT, mode: char, children: Vec<RouteT>| RouteT { segs, vec_kind: false, mode, children };
+        let all = ['o', 'p', 'i', 'a', 's', 'g'];
+        for &pm in &all {
+            for &cm in &all {
+                for base in [None, Some("/x".to_string())] {
+                    if base.is_some() && !(pm == 'o' || cm == 'o') {
+                        continue;
+                    }
+                    out.push((
+                        DefsT {
+                            base,
+                            vec_kind: false,
+                            tops: vec![
+                                with(st("a"), pm, vec![with(SegT::Tup(vec![st("b"), SegT::Param("p".into())]), cm, vec![])]),
+                                with(st("b"), cm, vec![]),
+                            ],
+                        },
+                        "fam-mode",
+                    ));
+                }
+            }
+        }
+        let some = ['o', 'i', 's', 'g'];
+        for &rm in &some {
+            for &cm in &some {
+                for &gm in &some {
+                    out.push((
+                        DefsT {
+                            base: None,
+                            vec_kind: false,
+                            tops: vec![with(
+                                st("a"),
+                                rm,
+                                vec![
+                                    with(
+                                        st("b"),
+                                        cm,
+                                        vec![with(SegT::Param("p".into()), gm, vec![]), with(st("a"), 'o', vec![])],
+                                    ),
+                                    with(SegT::Opt("o".into()), gm, vec![]),
+                                ],
+                            )],
+                        },
+                        "fam-mode",
+                    ));
+                }
             }
         }
         out
@@ -936,6 +1257,12 @@ mod gen {
         }
         if d.base.is_some() {
             t.push("base")
+        }
+        if any(&|r| r.mode != 'o') {
+            t.push("mode")
+        }
+        if any(&|r| matches!(r.mode, 's' | 'g')) {
+            t.push("static-mode")
         }
         if t.is_empty() {
             t.push("static")
@@ -1088,6 +1415,11 @@ mod gen {
             emit_set(&mut f, &mut r, idx, &d, fam, &fam_paths, 8, 4, 128)?;
             idx += 1;
         }
+        let mode_paths = all_paths(3);
+        for (d, fam) in mode_families() {
+            emit_set(&mut f, &mut r, idx, &d, fam, &mode_paths, 8, 4, 256)?;
+            idx += 1;
+        }
         for _ in 0..n {
             let d = gen_defs(&mut r);
             emit_set(&mut f, &mut r, idx, &d, "rnd", &rnd_paths, 24, 6, 128)?;
@@ -1106,6 +1438,7 @@ mod gen {
                         RouteT {
                             segs: st("a"),
                             vec_kind: false,
+                            mode: 'o',
                             children: vec![leaf(st("b")), leaf(SegT::Param("p".into()))],
                         },
                         leaf(SegT::Tup(vec![st("é"), SegT::Opt("o".into()), st("%")])),
